@@ -635,8 +635,10 @@ func (e *SpecEnv) call(c *ECall) Val {
 		}
 		return mkBool(and(cs...))
 	case "ptr":
+		// lock identity of a mutex given by pointer: pointers, field addresses and keyed locks live
+		// in disjoint residue classes of the lock-id space
 		v := e.eval(c.Args[0])
-		return mkInt(x.termOf(e.st, v))
+		return mkInt("(* 3 " + x.termOf(e.st, v) + ")")
 	case "allocated":
 		// the reference existed in the pre-state
 		v := e.eval(c.Args[0])
@@ -654,6 +656,28 @@ func (e *SpecEnv) call(c *ECall) Val {
 	case "max":
 		a, b := e.eval(c.Args[0]), e.eval(c.Args[1])
 		return mkInt(ite(app(">=", a.T, b.T), a.T, b.T))
+	case "as":
+		// as(T, x): the payload of interface value x viewed as *T (T a named struct type)
+		if len(c.Args) != 2 {
+			e.fail("as(T, x)")
+		}
+		var ty types.Type
+		switch tn := c.Args[0].(type) {
+		case *EIdent:
+			ty = e.resolveType(tn.Name).G
+		case *ESel:
+			if id, ok := tn.X.(*EIdent); ok {
+				ty = e.x.L.findTypeQualified(e.pkg, id.Name, tn.F)
+			}
+		}
+		if ty == nil {
+			e.fail("as: unknown type %s", c.Args[0])
+		}
+		v := e.eval(c.Args[1])
+		if _, ok := tyUnder(v).(*types.Interface); !ok {
+			e.fail("as: %s is not an interface value", c.Args[1])
+		}
+		return x.valFromTerm("(i_val "+v.T+")", types.NewPointer(ty))
 	case "isnil":
 		v := e.eval(c.Args[0])
 		return mkBool(eq(e.term(Val{T: "nil"}, v), x.termOf(e.st, v)))
